@@ -2,7 +2,7 @@
     rewriting, instance-name trie, patcher, hierarchical instance names.
     Statements only; proofs are in Routing/*Proofs.v. *)
 From BBS Require Import Common.Sx Routing.Names Routing.NamesProofs Routing.Trie Routing.TrieProofs
-  Routing.Patcher Routing.PatcherProofs Routing.Demux Routing.HierNames Routing.HierProofs Run.R19.
+  Routing.Patcher Routing.PatcherProofs Routing.Demux Routing.DemuxProofs Routing.HierNames Routing.HierProofs Run.R19.
 Open Scope Z_scope.
 
 (** ------------------------------------------------------------------ trie
@@ -102,6 +102,92 @@ Example patch_example :
   /\ patch_name (new_patcher (join []) (join [a])) (join []) = join [a]
   /\ patch_name (new_patcher (join [a]) (join [])) (join [a; b]) = join [b].
 Proof. vm_compute. repeat split; reflexivity. Qed.
+
+(** ----------------------------------------------------------- demultiplexer
+    [cfg]: list of (prefix to match, prefix to put in its place), registered in
+    the trie as new_blob_access.go does; [owner cfg inst]: index of the entry
+    registered (last) for the longest component-wise prefix of [inst], else -1
+    — defined on the configuration list, without any trie. *)
+
+Theorem getter_lookup_is_owner : forall cfg inst,
+  get_longest_prefix (build_trie cfg) (split inst) = owner cfg inst.
+Proof. exact glp_owner. Qed.
+Print Assumptions getter_lookup_is_owner.
+
+(** the getter: InvalidArgument for unknown names; otherwise the owner's
+    index, its name and the patcher old-prefix -> new-prefix, the instance name
+    being the matched prefix followed by some rest; never a panic *)
+Theorem getter_spec : forall cfg m, cfg_ok cfg -> name_ok m = true ->
+  match get_backend cfg (join m) with
+  | Err e => e = INVALID_ARGUMENT /\ owner cfg (join m) = -1
+  | Ok (i, key, p) =>
+      exists o n r, nth_error cfg i = Some (join o, join n) /\ name_ok o = true /\ name_ok n = true /\
+                    name_ok r = true /\ m = o ++ r /\ key = join o /\ p = new_patcher (join o) (join n) /\
+                    owner cfg (join m) = Z.of_nat i
+  | Panic => False
+  end.
+Proof. exact get_backend_spec. Qed.
+Print Assumptions getter_spec.
+
+Theorem demux_unknown_rejected : forall (D : Type) cfg (backends : list (backend D)),
+  cfg_ok cfg -> forall m b, name_ok m = true -> owner cfg (join m) < 0 ->
+  demux_get cfg backends (join m, b) = (Err INVALID_ARGUMENT, [])
+  /\ (forall c, demux_gfc cfg backends (join m, b) c = (Err INVALID_ARGUMENT, []))
+  /\ demux_put cfg backends (join m, b) = (Ok (INVALID_ARGUMENT, true), []).
+Proof. exact @demux_unknown. Qed.
+Print Assumptions demux_unknown_rejected.
+
+(** Get / Put / GetFromComposite: exactly one call, to the owning backend, the
+    matched prefix [o] replaced by the configured [n]; the result is that backend's *)
+Theorem demux_routes_to_owner : forall (D : Type) cfg (backends : list (backend D)),
+  cfg_ok cfg -> forall m b, name_ok m = true -> 0 <= owner cfg (join m) ->
+  exists i o n r, owner cfg (join m) = Z.of_nat i /\ nth_error cfg i = Some (join o, join n) /\ m = o ++ r /\
+    forall bk, nth_error backends i = Some bk ->
+      demux_get cfg backends (join m, b) = (b_get bk (join (n ++ r), b), [CGet i (join (n ++ r), b)])
+      /\ demux_put cfg backends (join m, b) = (Ok (b_put bk (join (n ++ r), b), false), [CPut i (join (n ++ r), b)])
+      /\ (forall cb, demux_gfc cfg backends (join m, b) (join m, cb)
+                     = (b_gfc bk (join (n ++ r), b) (join (n ++ r), cb),
+                        [CGfc i (join (n ++ r), b) (join (n ++ r), cb)])).
+Proof. exact @demux_known. Qed.
+Print Assumptions demux_routes_to_owner.
+
+(** FindMissing over backends with stable contents [present i]: an unknown
+    name rejects the whole call before any backend is contacted; otherwise the
+    result is exactly the set of requested digests whose rewritten form is
+    missing at their owner — expressed in the caller's names — and every backend
+    call is a FindMissing about exactly the rewritten digests that backend owns.
+    ([getter_spec] says what (i, key, p) are.) *)
+Theorem demux_find_missing_spec : forall (D : Type) cfg (backends : list (backend D)) (present : nat -> digest -> bool),
+  cfg_ok cfg -> length backends = length cfg ->
+  (forall i bk, nth_error backends i = Some bk ->
+     forall q, b_fm bk q = Ok (filter (fun d => negb (present i d)) q)) ->
+  forall ds, (forall d, In d ds -> exists m, name_ok m = true /\ fst d = join m) ->
+  ((exists d, In d ds /\ owner cfg (fst d) < 0) -> demux_fm cfg backends ds = (Err INVALID_ARGUMENT, []))
+  /\ ((forall d, In d ds -> 0 <= owner cfg (fst d)) ->
+      exists res calls, demux_fm cfg backends ds = (Ok res, calls) /\
+        (forall d, In d res <-> In d ds /\ exists i key p, get_backend cfg (fst d) = Ok (i, key, p)
+                                                       /\ present i (patch_digest p d) = false) /\
+        (forall i q, In (CFm i q) calls ->
+           forall x, In x q <-> exists d key p, In d ds /\ get_backend cfg (fst d) = Ok (i, key, p)
+                                                /\ x = patch_digest p d) /\
+        (forall c, In c calls -> exists i q, c = CFm i q)).
+Proof. exact @demux_fm_correct. Qed.
+Print Assumptions demux_find_missing_spec.
+
+(** prefixes "" -> "x", "a" -> "", "a/b" -> "a/b": digests of three names, one call per owner *)
+Example demux_example :
+  let a := [97%N] in let ab := [97%N; 98%N] in let b := [98%N] in let x := [120%N] in
+  let cfg := [(join [], join [x]); (join [a], join []); (join [a; b], join [a; b])] in
+  let bk (i : nat) : backend unit :=
+    {| b_get := fun _ => Err NOT_FOUND; b_gfc := fun _ _ => Err NOT_FOUND; b_put := fun _ => 0;
+       b_fm := fun q => Ok (filter (fun d => negb (N.eqb (snd d) 1)) q) |} in
+  demux_fm cfg [bk 0%nat; bk 1%nat; bk 2%nat]
+    [(join [ab], 1%N); (join [ab], 2%N); (join [a; ab], 2%N); (join [a; b; a], 3%N); (join [a], 4%N)]
+  = (Ok [(join [a; ab], 2%N); (join [ab], 2%N); (join [a; b; a], 3%N); (join [a], 4%N)],
+     [CFm 0 [(join [x; ab], 1%N); (join [x; ab], 2%N)];
+      CFm 1 [(join [ab], 2%N); (join [], 4%N)];
+      CFm 2 [(join [a; b; a], 3%N)]]).
+Proof. vm_compute. reflexivity. Qed.
 
 (** ------------------------------------------- hierarchical instance names
     [parents_of d]: d under every prefix of its instance name, d itself last. *)
